@@ -62,14 +62,14 @@ class Soup:
 
     def expr(self, d):
         rng = self.rng
-        n = rng.choice([1, 1, 2, 2, 3, 3, 4, 5, 6, 8]) if d < self.max_depth else rng.choice([1, 1, 2])
+        n = rng.choice([1, 2, 2, 3, 3, 4, 5, 6, 8]) if d == 0 else (rng.choice([1, 1, 2, 2, 3, 4]) if d < self.max_depth else rng.choice([1, 1, 2]))
         items = [self.operand(d)]
         for _ in range(n - 1):
             items.append((rng.choice(self.binops), self.operand(d)))
         return ('flat', items)
 
     def exprs(self, d, lo=0):
-        return [self.expr(d + 1) for _ in range(self.rng.choice([lo, 1, 1, 2, 3]))]
+        return [self.expr(d + 1) for _ in range(self.rng.choice([lo, 1, 1, 2, 3] if d == 0 else [lo, 1, 1, 2]))]
 
     def operand(self, d):
         rng = self.rng
